@@ -18,9 +18,11 @@ import (
 	"fmt"
 	"go/ast"
 	"go/parser"
+	"go/printer"
 	"go/token"
 	"os"
 	"path/filepath"
+	"regexp"
 	"sort"
 	"strconv"
 	"strings"
@@ -457,6 +459,309 @@ func exprStr(e ast.Expr) string {
 	return "?"
 }
 
+// ---------------------------------------------------------------- interpreted containers / helpers
+
+var fsetG = token.NewFileSet()
+
+// src renders a node as canonical Go source (go/printer), for strict shape matching
+func src(n ast.Node) string {
+	if n == nil {
+		return ""
+	}
+	var b strings.Builder
+	if err := printer.Fprint(&b, fsetG, n); err != nil {
+		return "?"
+	}
+	return strings.Join(strings.Fields(b.String()), " ")
+}
+
+func retOf(b *ast.BlockStmt) string {
+	if r, ok := singleReturn(b); ok {
+		return src(r)
+	}
+	return "?"
+}
+
+func leanInt(s string) (string, bool) {
+	if m := regexp.MustCompile(`^-?\d+$`).FindString(s); m != "" {
+		if strings.HasPrefix(m, "-") {
+			return "(" + m + ")", true
+		}
+		return m, true
+	}
+	return "", false
+}
+
+// helperBody transcribes a slice helper of util/compare
+func helperBody(fd *ast.FuncDecl) string {
+	var ps []string
+	for _, f := range fd.Type.Params.List {
+		for _, n := range f.Names {
+			ps = append(ps, n.Name)
+		}
+	}
+	if len(ps) != 2 {
+		return `.unknownB "params"`
+	}
+	l, r := ps[0], ps[1]
+	list := fd.Body.List
+	if len(list) == 1 {
+		if m := regexp.MustCompile(`^return (\w+)\(` + l + `, ` + r + `\) == 0$`).FindStringSubmatch(src(list[0])); m != nil {
+			return ".eqZero " + q(m[1])
+		}
+		return `.unknownB "shape"`
+	}
+	if len(list) != 4 {
+		return `.unknownB "statements"`
+	}
+	m0 := regexp.MustCompile(`^(\w+) := len\(` + l + `\)$`).FindStringSubmatch(src(list[0]))
+	m1 := regexp.MustCompile(`^(\w+) := len\(` + r + `\)$`).FindStringSubmatch(src(list[1]))
+	fs, ok := list[2].(*ast.ForStmt)
+	if m0 == nil || m1 == nil || !ok {
+		return `.unknownB "prologue"`
+	}
+	A, B := m0[1], m1[1]
+	header := "?"
+	if src(fs.Init) == "i := 0" && src(fs.Cond) == "i < "+A+" && i < "+B && src(fs.Post) == "i++" {
+		header = "both"
+	}
+	endRet := "?"
+	if src(list[3]) == "return "+A+" - "+B {
+		endRet = "lenDiff"
+	}
+	li, ri := l+"[i]", r+"[i]"
+	var steps []string
+	body := fs.Body.List
+	for k := 0; k < len(body); k++ {
+		st := body[k]
+		if is, ok := st.(*ast.IfStmt); ok && is.Init == nil && is.Else == nil {
+			if kk, ok := leanInt(retOf(is.Body)); ok {
+				switch src(is.Cond) {
+				case li + " > " + ri:
+					steps = append(steps, ".ifGt "+kk)
+					continue
+				case li + " < " + ri:
+					steps = append(steps, ".ifLt "+kk)
+					continue
+				}
+			}
+		}
+		if src(st) == "rt := strings.Compare("+li+", "+ri+")" && k+1 < len(body) {
+			if is, ok := body[k+1].(*ast.IfStmt); ok && is.Init == nil && is.Else == nil && src(is.Cond) == "rt != 0" && retOf(is.Body) == "rt" {
+				steps = append(steps, ".cmp3Nonzero")
+				k++
+				continue
+			}
+		}
+		steps = append(steps, ".unknownH "+q(fmt.Sprintf("%T", st)))
+	}
+	return ".loop " + q(header) + " [" + strings.Join(steps, ", ") + "] " + q(endRet)
+}
+
+type contLoop struct {
+	iter    string
+	commaOk bool
+	body    []ast.Stmt // the statements after v1, v2 are bound
+	rest    []ast.Stmt // what follows the loop
+}
+
+// containerLoop reads  [keys := this.Keys()] for … { [key := keys.NextX()] v1 := … ; v2[, _] := … ; body }
+func containerLoop(list []ast.Stmt) (cl contLoop, ok bool) {
+	cl.iter = "?"
+	if len(list) == 0 {
+		return cl, false
+	}
+	var fs *ast.ForStmt
+	var elemThis, elemThat string
+	if f, isFor := list[0].(*ast.ForStmt); isFor {
+		if src(f.Init) != "i := 0" || src(f.Cond) != "i < len(this.table)" || src(f.Post) != "i++" {
+			return cl, false
+		}
+		fs, cl.iter, cl.rest = f, "index", list[1:]
+		elemThis, elemThat = "this.table[i]", "that.table[i]"
+	} else if src(list[0]) == "keys := this.Keys()" && len(list) > 1 {
+		f, isFor := list[1].(*ast.ForStmt)
+		if !isFor || f.Init != nil || f.Post != nil || src(f.Cond) != "keys.HasMoreElements()" {
+			return cl, false
+		}
+		fs, cl.iter, cl.rest = f, "keys", list[2:]
+		elemThis, elemThat = "this.table.Get(key)", "that.table.Get(key)"
+	} else {
+		return cl, false
+	}
+	body := fs.Body.List
+	if cl.iter == "keys" {
+		if len(body) == 0 || !(src(body[0]) == "key := keys.NextString()" || src(body[0]) == "key := keys.NextInt()") {
+			cl.iter = "?"
+			return cl, false
+		}
+		body = body[1:]
+	}
+	if len(body) < 2 {
+		cl.iter = "?"
+		return cl, false
+	}
+	s1, s2 := src(body[0]), src(body[1])
+	if !(s1 == "v1 := "+elemThis+".(Value)" || s1 == "v1, _ := "+elemThis+".(Value)") {
+		cl.iter = "?"
+		return cl, false
+	}
+	switch s2 {
+	case "v2 := " + elemThat + ".(Value)":
+	case "v2, _ := " + elemThat + ".(Value)":
+		cl.commaOk = true
+	default:
+		cl.iter = "?"
+		return cl, false
+	}
+	cl.body = body[2:]
+	return cl, true
+}
+
+func sizeCheck(st ast.Stmt, want string) bool {
+	is, ok := st.(*ast.IfStmt)
+	if !ok || is.Init != nil || is.Else != nil {
+		return false
+	}
+	for _, sz := range [][2]string{{"len(this.table)", "len(that.table)"}, {"this.table.Size()", "that.table.Size()"}} {
+		w := want
+		if w == "diff" {
+			w = sz[0] + " - " + sz[1]
+		}
+		if src(is.Cond) == sz[0]+" != "+sz[1] && retOf(is.Body) == w {
+			return true
+		}
+	}
+	return false
+}
+
+func containerCmp(t string, fd *ast.FuncDecl) string {
+	nilRet, fallback, size, endRet := "999", "?", false, "999"
+	iter, commaOk := "?", false
+	var steps []string
+	list := fd.Body.List
+	bad := func(why string) string {
+		return fmt.Sprintf("{ nilRet := %s, fallback := %s, sizeCheck := %v, iter := \"?\", thatCommaOk := false, body := [.unknownK %s], endRet := %s }", nilRet, q(fallback), size, q(why), endRet)
+	}
+	if len(list) < 4 {
+		return bad("statements")
+	}
+	if is, ok := list[0].(*ast.IfStmt); ok && isNilTest(is.Cond) && is.Else == nil && is.Init == nil {
+		if k, ok := leanInt(retOf(is.Body)); ok {
+			nilRet = k
+		}
+	} else {
+		return bad("nil test")
+	}
+	if is, ok := list[1].(*ast.IfStmt); ok && is.Else == nil && is.Init == nil && src(is.Cond) == "o.GetValueType() != this.GetValueType()" {
+		if r, ok := singleReturn(is.Body); ok {
+			fallback = fallbackKind(r)
+		}
+	} else {
+		return bad("type test")
+	}
+	if src(list[2]) != "that := o.(*"+t+")" {
+		return bad("that")
+	}
+	list = list[3:]
+	if sizeCheck(list[0], "diff") {
+		size = true
+		list = list[1:]
+	}
+	cl, ok := containerLoop(list)
+	if !ok {
+		return bad("loop")
+	}
+	iter, commaOk = cl.iter, cl.commaOk
+	for k := 0; k < len(cl.body); k++ {
+		st := cl.body[k]
+		if is, ok := st.(*ast.IfStmt); ok && is.Init == nil && is.Else == nil && src(is.Cond) == "v2 == nil" {
+			if kk, ok := leanInt(retOf(is.Body)); ok {
+				steps = append(steps, ".missingRet "+kk)
+				continue
+			}
+		}
+		if src(st) == "c := v1.CompareTo(v2)" && k+1 < len(cl.body) {
+			if is, ok := cl.body[k+1].(*ast.IfStmt); ok && is.Init == nil && is.Else == nil && src(is.Cond) == "c != 0" && retOf(is.Body) == "c" {
+				steps = append(steps, ".recNonzero")
+				k++
+				continue
+			}
+		}
+		steps = append(steps, ".unknownK "+q(fmt.Sprintf("%T", st)))
+	}
+	if len(cl.rest) == 1 {
+		if rs, ok := cl.rest[0].(*ast.ReturnStmt); ok && len(rs.Results) == 1 {
+			if k, ok := leanInt(src(rs.Results[0])); ok {
+				endRet = k
+			}
+		}
+	} else {
+		steps = append(steps, `.unknownK "after the loop"`)
+	}
+	return fmt.Sprintf("{ nilRet := %s, fallback := %s, sizeCheck := %v, iter := %s, thatCommaOk := %v, body := [%s], endRet := %s }",
+		nilRet, q(fallback), size, q(iter), commaOk, strings.Join(steps, ", "), endRet)
+}
+
+func containerEq(t string, fd *ast.FuncDecl) string {
+	guard, size, endRet := false, false, "false"
+	var steps []string
+	list := fd.Body.List
+	bad := func(why string) string {
+		return fmt.Sprintf("{ guard := %v, sizeCheck := %v, iter := \"?\", thatCommaOk := false, body := [.unknownQ %s], endRet := false }", guard, size, q(why))
+	}
+	if len(list) < 3 {
+		return bad("statements")
+	}
+	if is, ok := list[0].(*ast.IfStmt); ok && is.Else == nil && is.Init == nil &&
+		src(is.Cond) == "o == nil || o.GetValueType() != this.GetValueType()" && retOf(is.Body) == "false" {
+		guard = true
+	} else {
+		return bad("guard")
+	}
+	if src(list[1]) != "that := o.(*"+t+")" {
+		return bad("that")
+	}
+	list = list[2:]
+	if sizeCheck(list[0], "false") {
+		size = true
+		list = list[1:]
+	}
+	cl, ok := containerLoop(list)
+	if !ok {
+		return bad("loop")
+	}
+	for _, st := range cl.body {
+		if is, ok := st.(*ast.IfStmt); ok && is.Init == nil && is.Else == nil {
+			r := retOf(is.Body)
+			if r == "true" || r == "false" {
+				switch src(is.Cond) {
+				case "v2 == nil":
+					steps = append(steps, ".missingRetE "+r)
+					continue
+				case "v1.Equals(v2) == false", "!v1.Equals(v2)":
+					steps = append(steps, ".recUnequal "+r)
+					continue
+				}
+			}
+		}
+		steps = append(steps, ".unknownQ "+q(fmt.Sprintf("%T", st)))
+	}
+	okEnd := false
+	if len(cl.rest) == 1 {
+		if rs, ok := cl.rest[0].(*ast.ReturnStmt); ok && len(rs.Results) == 1 {
+			if r := src(rs.Results[0]); r == "true" || r == "false" {
+				endRet, okEnd = r, true
+			}
+		}
+	}
+	if !okEnd {
+		steps = append(steps, `.unknownQ "after the loop"`)
+	}
+	return fmt.Sprintf("{ guard := %v, sizeCheck := %v, iter := %s, thatCommaOk := %v, body := [%s], endRet := %s }",
+		guard, size, q(cl.iter), cl.commaOk, strings.Join(steps, ", "), endRet)
+}
+
 func main() {
 	repo := flag.String("repo", "/repo", "repository root")
 	out := flag.String("out", "", "output Lean file")
@@ -481,6 +786,9 @@ func main() {
 	cmpOK := map[string]bool{}
 	eq := map[string]string{}
 	cont := map[string][]string{}
+	contC := map[string]string{}
+	contE := map[string]string{}
+	helperB := map[string]string{}
 	valueTypes := map[string]bool{}
 	vfiles := parse("lang/value")
 	var names []string
@@ -504,6 +812,7 @@ func main() {
 			case "CompareTo":
 				if containers[t] {
 					cont[t+".CompareTo"] = skeleton(fd)
+					contC[t] = containerCmp(t, fd)
 				} else {
 					c, ok := flatCompareTo(fd)
 					cmp[t], cmpOK[t] = c, ok
@@ -511,6 +820,7 @@ func main() {
 			case "Equals":
 				if containers[t] {
 					cont[t+".Equals"] = skeleton(fd)
+					contE[t] = containerEq(t, fd)
 				} else {
 					e, _ := flatEquals(fd)
 					eq[t] = e
@@ -528,13 +838,14 @@ func main() {
 			if len(fd.Type.Params.List) > 0 {
 				if _, isSlice := fd.Type.Params.List[0].Type.(*ast.ArrayType); isSlice {
 					helpers[fd.Name.Name] = skeleton(fd)
+					helperB[fd.Name.Name] = helperBody(fd)
 				}
 			}
 		}
 	}
 
 	var b strings.Builder
-	b.WriteString("-- generated by xlate/c20 from lang/value and util/compare — do not edit\nimport Golib.Value.CmpIR\nnamespace Gen.C20\nopen Value.IR\n\n")
+	b.WriteString("-- generated by xlate/c20 from lang/value and util/compare — do not edit\nimport Golib.Value.CmpIRC\nnamespace Gen.C20\nopen Value.IR\n\n")
 	var ts []string
 	for t := range valueTypes {
 		if !containers[t] {
@@ -592,6 +903,35 @@ func main() {
 			b.WriteString(",\n   ")
 		}
 		fmt.Fprintf(&b, "(%s, %s)", q(k), strList(helpers[k]))
+	}
+	b.WriteString("]\n\ndef contCmp : List (String × ContCmp) :=\n  [")
+	for i, t := range []string{"IntMapValue", "ListValue", "MapValue"} {
+		if i > 0 {
+			b.WriteString(",\n   ")
+		}
+		c := contC[t]
+		if c == "" {
+			c = `{ nilRet := 999, fallback := "?", sizeCheck := false, iter := "?", thatCommaOk := false, body := [.unknownK "missing"], endRet := 999 }`
+		}
+		fmt.Fprintf(&b, "(%s, %s)", q(t), c)
+	}
+	b.WriteString("]\n\ndef contEq : List (String × ContEq) :=\n  [")
+	for i, t := range []string{"IntMapValue", "ListValue", "MapValue"} {
+		if i > 0 {
+			b.WriteString(",\n   ")
+		}
+		c := contE[t]
+		if c == "" {
+			c = `{ guard := false, sizeCheck := false, iter := "?", thatCommaOk := false, body := [.unknownQ "missing"], endRet := false }`
+		}
+		fmt.Fprintf(&b, "(%s, %s)", q(t), c)
+	}
+	b.WriteString("]\n\ndef helperBodies : List (String × HelperBody) :=\n  [")
+	for i, k := range hs {
+		if i > 0 {
+			b.WriteString(",\n   ")
+		}
+		fmt.Fprintf(&b, "(%s, %s)", q(k), helperB[k])
 	}
 	b.WriteString("]\n\nend Gen.C20\n")
 	if *out == "" {
